@@ -242,11 +242,16 @@ func rulesC01(c *Ctx) {
 				}, "objects.Node.isReservedForAllocation")))
 			c.Check("C01.e", "preAllocateCheck: reservation gate", rs, resv, "preAllocateCheck can return true for a node reserved for a different ask; facts: %v", p.FactStrings(st))
 			fit := false
-			if call, ok := unparen(rs.Results[0]).(*ast.CallExpr); ok && p.IsCall(call, "resources.Resource.FitIn") {
-				if _, isAvail := p.fieldSel(Recv(call), "objects.Node.availableResource"); isAvail && len(call.Args) == 1 && p.Same(T(call.Args[0], st), resT(st)) {
+			for _, t := range p.chain(T(rs.Results[0], st)) {
+				call, ok := unparen(t.E).(*ast.CallExpr)
+				if !ok || !p.IsCall(call, "resources.Resource.FitIn") {
+					continue
+				}
+				if _, isAvail := p.fieldSel(Recv(call), "objects.Node.availableResource"); isAvail && len(call.Args) == 1 && p.Same(Term{E: call.Args[0], Env: t.Env, Idx: -1}, resT(st)) {
 					fit = true
 				}
-				held := p.lockHeld(fn, call, func(e ast.Expr) bool { return p.isRecvExpr(fn, e) }, false)
+				owner := p.EnclosingFunc(call.Pos())
+				held := owner != nil && p.lockHeld(owner, call, func(e ast.Expr) bool { return p.isRecvExpr(owner, e) }, false)
 				c.Check("C01.e", "preAllocateCheck: fit under lock", call, held, "availableResource read without the node lock")
 			}
 			c.Check("C01.e", "preAllocateCheck: fit test", rs, fit, "preAllocateCheck true-return is not availableResource.FitIn(res)")
